@@ -7,7 +7,7 @@ import tempfile
 import zlib
 
 from engine import SPEC, gen_states, pool_map
-from readers import join_lines, run_cli, split_tag, write_text, workdir
+from readers import read_out, join_lines, run_cli, split_tag, write_text, workdir
 
 DATA = json.load(open(os.path.join(SPEC, "data", "phase_pool.json")))
 
@@ -43,7 +43,7 @@ def run_case(job):
             f.write(("\r\n".join(rows) + "\r\n") if h == 1 and rows else ("\n".join(rows) if h == 0 else "".join(r + "\n" for r in rows)))
         out = os.path.join(d, "out.gaf")
         r = run_cli(["phase", gaf, tp, "-o", out])
-        txt = open(out).read() if os.path.exists(out) else ""
+        txt = read_out(out) if os.path.exists(out) else ""
         olines = txt.split("\n")
         if olines and olines[-1] == "":
             olines = olines[:-1]
